@@ -84,15 +84,38 @@ Print Assumptions C04_registries_inplace.
 (* registry_histories: for ALL histories of register / unregister calls (either registry, through Pyro5.api /
    SerializerBase or through any concrete serializer class, in any order) and every serializer: the registry that
    serializer consults holds exactly the tags whose last call was a register. *)
-Theorem C04_registry_histories : forall k h s t, mem t (gen_effective k h s) = currently_registered k h t.
+Theorem C04_registry_histories : forall k h s t, mem t (gen_effective k h s) = gen_registered k h t.
 Proof. exact gen_registry_histories. Qed.
 Print Assumptions C04_registry_histories.
+
+(* Computed: register_dict_to_class and unregister_dict_to_class read their tag argument alike (both decode a bytes
+   tag to text, or neither does). *)
+Theorem C04_registry_keys_agree : Bool.eqb reg_d2c_norm_register reg_d2c_norm_unregister = true.
+Proof. exact gen_registry_keys_agree. Qed.
+Print Assumptions C04_registry_keys_agree.
+
+(* registry as a map: after ANY history, unregister(x) right after register(x) — same argument x, str or bytes, any
+   spelling register accepts, through any two entry points — leaves x's key out of every serializer's registry; by
+   C04_only_registry_escapes_hist no payload then reaches that converter. *)
+Theorem C04_unregister_undoes_register : forall k h ep1 ep2 op key ser,
+  op_kind op = k -> key_of (gen_norm k) op = Some key ->
+  mem key (gen_effective k (h ++ [same_arg true ep1 op; same_arg false ep2 op]) ser) = false.
+Proof. exact gen_unregister_undoes_register. Qed.
+Print Assumptions C04_unregister_undoes_register.
+
+(* the defective variant: register decodes a bytes tag but unregister does not — the pair register(b"T"); unregister(b"T")
+   leaves the converter live for the text tag T. *)
+Theorem C04_key_mismatch_refuted : exists op key,
+  key_of true op = Some key /\
+  mem key (effective true true false KD2C [same_arg true EpBase op; same_arg false EpBase op] 3) = true.
+Proof. exact key_mismatch_refuted. Qed.
+Print Assumptions C04_key_mismatch_refuted.
 
 (* only_registry_escapes over histories (decision of the base-class dict_to_class; for the tag a serializer special-cases before it, see C04_node_special_or_registry): after any history, decoding with any serializer runs the application's
    converter for a tag iff that tag is currently registered. *)
 Theorem C04_only_registry_escapes_hist : forall h ser,
-  (forall tag flag imps t, gen_decide (gen_effective KD2C h ser) tag flag = (imps, ACustom t) -> currently_registered KD2C h t = true) /\
-  (forall s flag, currently_registered KD2C h s = true -> gen_decide (gen_effective KD2C h ser) (VStr s) flag = ([], ACustom s)).
+  (forall tag flag imps t, gen_decide (gen_effective KD2C h ser) tag flag = (imps, ACustom t) -> gen_registered KD2C h t = true) /\
+  (forall s flag, gen_registered KD2C h s = true -> gen_decide (gen_effective KD2C h ser) (VStr s) flag = ([], ACustom s)).
 Proof. exact gen_only_registry_escapes_hist. Qed.
 Print Assumptions C04_only_registry_escapes_hist.
 
@@ -105,7 +128,7 @@ Theorem C04_node_special_or_registry : forall h ser sub keys vals,
   let node := d2c_node gen_env dtc_pre dtc_chain dtc_tagkey mkexc_argskey mkexc_attrkey reg special sub keys vals in
   (special_hit special (node_tag dtc_tagkey keys vals) = true -> fst node = [] /\ forall v, snd node = Ok v -> v = VFloat true) /\
   (forall s, special_hit special (node_tag dtc_tagkey keys vals) = false -> node_tag dtc_tagkey keys vals = VStr s ->
-             currently_registered KD2C h s = true -> node = ([EvConverter s], Ok (VObj (CCustom s) []))).
+             gen_registered KD2C h s = true -> node = ([EvConverter s], Ok (VObj (CCustom s) []))).
 Proof. exact gen_node_special_or_registry. Qed.
 Print Assumptions C04_node_special_or_registry.
 
@@ -114,14 +137,14 @@ Theorem C04_recreate_types_hist : forall h ser call parts,
   Forall plain parts ->
   let reg := gen_effective KD2C h ser in
   Forall (event_ok gen_env reg) (fst (gen_run reg ser call parts)) /\
-  (forall t, In (EvConverter t) (fst (gen_run reg ser call parts)) -> currently_registered KD2C h t = true) /\
+  (forall t, In (EvConverter t) (fst (gen_run reg ser call parts)) -> gen_registered KD2C h t = true) /\
   forall out, snd (gen_run reg ser call parts) = Ok out -> Forall (vall (class_ok gen_env reg)) out.
 Proof. exact gen_recreate_types_hist. Qed.
 Print Assumptions C04_recreate_types_hist.
 
 (* the defective variant (registries rebound through cls): register via JsonSerializer, unregister via the api —
    the json serializer still has the converter although the tag is not registered any more. *)
-Theorem C04_rebind_refuted : exists h s t, mem t (effective false KD2C h s) = true /\ currently_registered KD2C h t = false.
+Theorem C04_rebind_refuted : exists h s t, mem t (effective false false false KD2C h s) = true /\ currently_registered false KD2C h t = false.
 Proof. exact rebind_refuted. Qed.
 Print Assumptions C04_rebind_refuted.
 
@@ -138,10 +161,10 @@ Example C04_nonvacuous_refused :
   snd (gen_decide [] (VStr (txt "builtins.open")) (fun _ => true)) = AReject ETypeError.
 Proof. vm_compute. auto. Qed.
 Example C04_nonvacuous_history :
-  let h := [ {| op_add := true; op_ep := EpSer 3; op_kind := KD2C; op_tag := txt "a.B" |};
-             {| op_add := true; op_ep := EpBase; op_kind := KD2C; op_tag := txt "c.D" |};
-             {| op_add := false; op_ep := EpBase; op_kind := KD2C; op_tag := txt "a.B" |} ] in
-  currently_registered KD2C h (txt "c.D") = true /\ currently_registered KD2C h (txt "a.B") = false /\
+  let h := [ {| op_add := true; op_ep := EpSer 3; op_kind := KD2C; op_bytes := false; op_tag := txt "a.B" |};
+             {| op_add := true; op_ep := EpBase; op_kind := KD2C; op_bytes := false; op_tag := txt "c.D" |};
+             {| op_add := false; op_ep := EpBase; op_kind := KD2C; op_bytes := false; op_tag := txt "a.B" |} ] in
+  gen_registered KD2C h (txt "c.D") = true /\ gen_registered KD2C h (txt "a.B") = false /\
   gen_effective KD2C h 3 = [txt "c.D"] /\ gen_effective KD2C h 1 = [txt "c.D"].
 Proof. vm_compute. auto. Qed.
 Example C04_nonvacuous_special :
